@@ -2290,8 +2290,15 @@ class StaticURLInfo:
             # url, spec, route_name
             registrations.append((url, spec, route_name))
 
+        # the same view name may be used under several route prefixes
+        discriminator = name
+        if url is None and config.route_prefix:
+            discriminator = f'{config.route_prefix}/{name}'
         intr = config.introspectable(
-            'static views', name, 'static view for %r' % name, 'static view'
+            'static views',
+            discriminator,
+            'static view for %r' % name,
+            'static view',
         )
         intr['name'] = name
         intr['spec'] = spec
